@@ -1325,3 +1325,53 @@ func ruleKindFactories(r *Run, p string) {
 		}
 	}
 }
+
+// ruleFusionDefaults: every call of DefaultFusionConfig hands out a fresh object holding the documented defaults
+// (vector weight 1, text weight 1, K 60). A shared object would let one caller's customisation change the default fusion
+// and every fusion built with a nil configuration.
+func ruleFusionDefaults(r *Run, rule string) {
+	w := r.W
+	r.Doc(rule, "the default fusion parameters are shared mutable state or differ from the documented 1 / 1 / 60")
+	fn := w.Fn("DefaultFusionConfig")
+	if fn == nil {
+		r.Unres(rule, "fusion:defaults", "DefaultFusionConfig not found")
+		return
+	}
+	r.Analysed("DefaultFusionConfig")
+	site := w.Pos(fn.Pos()) + " DefaultFusionConfig"
+	fresh := true
+	var lit ssa.Value
+	for _, ret := range returnsOf(fn) {
+		a, ok := ret.Results[0].(*ssa.Alloc)
+		if !ok || !a.Heap {
+			fresh = false
+			continue
+		}
+		lit = a
+	}
+	r.Check(fresh && lit != nil, rule, "fusion:defaults:fresh", site, "a new configuration object is allocated by every call", "the returned configuration is not allocated by the call (shared object: customising it changes the defaults of every other user)")
+	if lit != nil {
+		want := map[string]string{"VectorWeight": "1", "TextWeight": "1", "K": "60"}
+		if f, ok := litFields(lit); ok {
+			var bad []string
+			for name, v := range want {
+				got := "unset"
+				if fv := f[name]; fv != nil {
+					if k, isC := fv.(*ssa.Const); isC && k.Value != nil {
+						fl, _ := constant.Float64Val(k.Value)
+						got = fmt.Sprint(fl)
+					} else {
+						got = "non-constant"
+					}
+				}
+				if got != v {
+					bad = append(bad, name+"="+got+" (documented "+v+")")
+				}
+			}
+			sort.Strings(bad)
+			r.Check(len(bad) == 0, rule, "fusion:defaults:values", site, "defaults are VectorWeight 1, TextWeight 1, K 60", strings.Join(bad, ", "))
+		} else {
+			r.Und(rule, "fusion:defaults:values", site, "default configuration is not a composite literal")
+		}
+	}
+}
